@@ -66,6 +66,17 @@ def resting_scenario(draw, tier="quick"):
              "pers": draw(st.sampled_from(["LAPSE", "PERSIST", "MARKET_ON_CLOSE"]))}
     n = draw(st.integers(3, 10))
     script = [{"m": 0, "at": 1, "ops": [place]}]
+    if draw(st.integers(0, 3)) == 0:
+        # directed: a first partial cancel completes, a second partial cancel (valid when requested) is overtaken
+        # inside its latency window by a fill that leaves less than the requested reduction
+        steps.append({"dt": 1000, "k": "book", "rc": []})  # placement executes
+        script.append({"m": 0, "at": len(steps), "ops": [{"op": "cancel", "o": 0, "red": draw(st.sampled_from([0.2, 0.3, 0.5]))}]})
+        steps.append({"dt": 1000, "k": "book", "rc": []})  # first cancel executes
+        script.append({"m": 0, "at": len(steps), "ops": [{"op": "cancel", "o": 0, "red": draw(st.sampled_from([0.5, 0.8, 0.9, 1.0]))}]})
+        fill = draw(st.sampled_from([0.3, 0.5, 0.8, 1.5]))
+        steps.append({"dt": draw(st.sampled_from([30, 100])), "k": "book",
+                      "rc": [{"r": 0, "trd": [[tick, max(0.02, round(2 * size * fill, 2))]]}]})
+        steps.append({"dt": 200, "k": "book", "rc": []})  # second cancel executes
     for i in range(n):
         dt = draw(st.sampled_from([30, 60, 100, 130, 200, 1000]))
         k = draw(st.integers(0, 9))
